@@ -32,7 +32,7 @@ def cfg_space(tier):
        perms |-> "all", cbs |-> <<[t |-> "rec"]>>, vals |-> <<>>, vars |-> <<>>] :
        ty \\in {"complex", "density"}, n \\in 1..%d, pb \\in 1..3, ngb \\in 0..2,
        d \\in {<<1, 2, 3, 0>>, <<3, 3, 1, 3>>}, bs \\in {<<0, 1, 2, 5>>, <<0, 0, 4, 0>>} }''' % nmax
-    return pos + " \\cup " + oth
+    return [pos, oth]
 
 
 def random_cfg(rng, tier):
